@@ -217,6 +217,10 @@ Eligible(db, mem, s, asIfPending) ==
   /\ ReadyDef(db, s)
   /\ (db.nodes[s].hasStepHash \/ ResourcesFree(db, mem, s))
 
+(* C11: a step is needed when its need, by definition, exceeds the threshold of this build *)
+NeededStep(db, mem, s) ==
+  LET inr == ImpliedNeedDef(db, mem, s, Cardinality(Steps(db)) + 1) IN inr > 1 /\ inr > Threshold(mem)
+
 EligibleSteps(db, mem) == {s \in Steps(db) : Eligible(db, mem, s, FALSE)}
 
 (* why a dispatched step was not eligible: names the failing conjunct *)
